@@ -17,7 +17,7 @@ where
 
     let bin_count = read_bin_count(reader)?;
 
-    let mut bins = IndexMap::with_capacity(bin_count);
+    let mut bins = IndexMap::new();
     let mut metadata = None;
 
     for _ in 0..bin_count {
@@ -61,6 +61,18 @@ where
 #[cfg(test)]
 mod tests {
     use super::*;
+
+    #[test]
+    fn test_read_bins_with_an_unsatisfiable_bin_count() {
+        let src = [
+            0xff, 0xff, 0xff, 0x7f, // n_bin = 2147483647
+        ];
+
+        assert!(matches!(
+            read_bins(&mut &src[..]),
+            Err(e) if e.kind() == io::ErrorKind::UnexpectedEof
+        ));
+    }
 
     #[test]
     fn test_read_bins() -> io::Result<()> {
